@@ -473,9 +473,16 @@ fn ops(c: &Case, outdir: &Path, out: &mut String) {
         (st.ops.clone(), st.log.clone(), st.cur.get_ref().clone())
     };
     let mut line = format!("OPS {}", oplist.len());
+    let mut wix = 0usize;
     for o in &oplist {
         match o {
-            Op::Write { pos, len } => write!(line, " W{}+{}", pos, len).unwrap(),
+            Op::Write { pos, len } => {
+                // `!` marks a write that puts a non-zero byte into the magic number (offsets 0..4)
+                let (_, data) = &log[wix];
+                wix += 1;
+                let hot = *pos < 4 && data.iter().take((4 - *pos) as usize).any(|b| *b != 0);
+                write!(line, " W{}+{}{}", pos, len, if hot { "!" } else { "" }).unwrap()
+            }
             Op::Seek { to } => write!(line, " S{}", to).unwrap(),
             Op::Flush => write!(line, " F").unwrap(),
         }
